@@ -15,6 +15,7 @@ STEP_UP = "xsub(%s, %s) > 0" % (m('j + 1'), m('j'))
 STEP_AT = "xsub(%s, %s)" % (m('{j} + 1'), m('{j}'))
 END = "(len(result) - local('last_empirical_idx'))"
 
+LAST_STEP = ("({s} > 0 or {s} < 0) and local('first_empirical_idx') <= {e} - 2".format(s=STEP_AT.format(j="(%s - 2)" % END), e=END))
 TAIL_ZERO = ("forall(j, {e} - 1 <= j < len(result) - 1, not ({s} > 0 or {s} < 0))".format(e=END, s=STEP_AT.format(j='j')))
 
 
@@ -27,6 +28,12 @@ def _tail_proof(P):
     n = E.entry_env['pha_tnpi'].n
     E.final_env = dict(env)
     P.prove_clause('tail-steps-zero', TAIL_ZERO, env2, lambda j: [P.instq('next#2', 1, n - 2 - j), P.instq('next#2', 0)])
+    # the step found by the reversed search is non-zero, and it is not before the first rising step (which the search
+    # would have met, from the other end, at the mirrored index)
+    F = env['first_empirical_idx']
+    Ft = F.t if hasattr(F, 't') else F
+    P.prove_clause('last-step-nonzero', LAST_STEP, env2,
+                   lambda: [P.instq('next#2', 0), P.instq('next#2', 1, n - 2 - Ft), P.instq('next#1', 0)])
 
 
 contract(
@@ -50,8 +57,7 @@ contract(
         # F is itself a rising step; the step into the last unmasked sample is non-zero and every later step is zero
         # (these three pin F and K down for the caller)
         STEP_AT.format(j="local('first_empirical_idx')") + " > 0",
-        ("({s} > 0 or {s} < 0) and local('first_empirical_idx') <= {e} - 2".format(
-            s=STEP_AT.format(j="(%s - 2)" % END), e=END)),
+        LAST_STEP,
         TAIL_ZERO,
     ],
     # explicit witnesses for the two next(...) searches: the rising step assumed to exist; and, after the head has been
@@ -59,7 +65,7 @@ contract(
     witness={2: "len(pha) - 2 - first_empirical_idx"},
     exposed_locals={'first_empirical_idx': INT, 'last_empirical_idx': INT},
     proof={('before_return',): _tail_proof},
-    ensures_using={10: ['tail-steps-zero']},
+    ensures_using={9: ['last-step-nonzero'], 10: ['tail-steps-zero']},
     modifies=[],
     result=arr_result(XR),
 )
